@@ -62,6 +62,9 @@ def gen(rng, idx, tier, seed):
         spec['via'] = 'dunder' if rng.random() < 0.8 else 'pncbo'
         spec['inject'] = bool(rng.random() < 0.6)
         spec['dtype_shift'] = bool(rng.random() < 0.4)
+        if idx % 8 in (1, 5):
+            # (a op b) op2 b: the intermediate result is the left operand
+            spec['chain'] = names[int(rng.integers(len(names)))]
     elif mode == 'mask':
         opts = ['less', 'less_equal', 'greater', 'greater_equal', 'values',
                 'equal', 'invalid', 'where']
@@ -87,6 +90,8 @@ def gen(rng, idx, tier, seed):
         spec['nassign'] = int(rng.integers(1, 4))
         if idx % 3 == 0:
             spec['via'] = 'pncexpr'
+        # a global attribute with the name of a variable the expression reads
+        spec['shadow'] = bool(rng.random() < 0.3)
     return spec
 
 
@@ -131,9 +136,19 @@ def run_binop(spec, res):
     if spec['inject']:
         inject(a, spec['seed'])
         inject(b, spec['seed'] + 1)
-    sa, sb = snapshot.snap_file(a), snapshot.snap_file(b)
-    op = spec['op']
     coords = set(a.getCoords())
+    mid = binop_once(spec, res, a, b, spec['op'], coords, pncbo, '')
+    if mid is not None and spec.get('chain'):
+        res.facet('chained')
+        binop_once(spec, res, mid, b, spec['chain'], coords, pncbo,
+                   'chained:')
+
+
+def binop_once(spec, res, a, b, op, coords, pncbo, label):
+    """one monitored a op b; returns the result file (None when the call
+    raised or was out of domain)"""
+    sa, sb = snapshot.snap_file(a), snapshot.snap_file(b)
+    dg = digest([spec, label])
     # reference first: if numpy refuses the expression the call is outside
     # the domain
     ref = {}
@@ -153,16 +168,16 @@ def run_binop(spec, res):
             out = pncbo(op, a, b)
     except Exception as e:
         res.hook('binop.return')
-        res.ev(digest(spec), True, ['op:' + op, 'raised'])
+        res.ev(dg, True, ['op:' + op, 'raised'])
         if dom:
             res.viol('in-domain-raise:binop:%s' % type(e).__name__,
-                     'a %s b raised %r' % (op, e), op=op,
-                     excmsg=str(e)[:200])
-        return
+                     '%sa %s b raised %r' % (label, op, e), op=op,
+                     excmsg=str(e)[:200], chained=bool(label))
+        return None
     res.hook('binop.return')
     if not dom:
-        res.ev(digest(spec), False, 'out-of-domain-returned')
-        return
+        res.ev(dg, False, 'out-of-domain-returned')
+        return None
     problems = []
     judged = 0
     domain_leaks = []
@@ -191,8 +206,8 @@ def run_binop(spec, res):
         with np.errstate(all='ignore'):
             fin = np.isfinite(exp.astype('f8')) if exp.dtype.kind in 'fiub' \
                 else np.ones(exp.shape, bool)
-        if op in ('//', '%') and va.data.dtype.kind in 'iu' and \
-                vb.data.dtype.kind in 'iu':
+        if op in ('//', '%') and va.data.dtype.kind in 'iub' and \
+                vb.data.dtype.kind in 'iub':
             # integer division by zero has no representable result (plain
             # numpy returns 0 with a warning, numpy.ma masks the cell):
             # neither outcome is demanded
@@ -203,8 +218,8 @@ def run_binop(spec, res):
         wrongmask = both & (gm != ~fin)
         # value rule wherever the result is unmasked
         chk = ~gm & fin
-        if op in ('//', '%') and va.data.dtype.kind in 'iu' and \
-                vb.data.dtype.kind in 'iu':
+        if op in ('//', '%') and va.data.dtype.kind in 'iub' and \
+                vb.data.dtype.kind in 'iub':
             chk = chk & (vb.data != 0)
         gd = got.data
         if exp.dtype.kind == 'b' or gd.dtype.kind == 'b':
@@ -236,15 +251,18 @@ def run_binop(spec, res):
                     'masked=%s (maskedtype operands: %s/%s)'
                     % (k, i, va.data[i], vb.data[i], exp[i], gd[i], gm[i],
                        va.masked_type, vb.masked_type))
-    res.ev(digest(spec), judged > 0, ['op:' + op, 'via:' + spec['via']])
+    res.ev(dg, judged > 0, ['op:' + op, 'via:' + spec['via']])
     if domain_leaks:
         res.viol('masked-operand-domain-leak',
-                 'a %s b: variables %s: cells whose reference result is '
+                 '%sa %s b: variables %s: cells whose reference result is '
                  'non-finite are left unmasked holding the LEFT operand\'s '
-                 'value (operands are numpy.ma arrays)' % (op, domain_leaks),
-                 op=op, vars=domain_leaks)
+                 'value (operands are numpy.ma arrays)' % (label, op,
+                                                           domain_leaks),
+                 op=op, vars=domain_leaks, chained=bool(label))
     if problems:
-        res.viol('wrong-arithmetic:' + op, '; '.join(problems[:5]), op=op)
+        res.viol('wrong-arithmetic:' + op, label + '; '.join(problems[:5]),
+                 op=op, chained=bool(label))
+    return out
 
 
 EXPRS = ['{a} * 2', '{a} + {b}', 'np.abs({a}) - 1.5', '{a} / 4.', '-{a}',
@@ -274,6 +292,10 @@ def run_eval(spec, res):
         lines.append('%s = %s' % (t, e))
         targets.append(t)
     expr = '; '.join(lines)
+    if spec.get('shadow'):
+        # the file's arrays take precedence over a like-named attribute
+        setattr(f, a, 3.25)
+        res.facet('eval:attribute-shadows-variable')
     before = snapshot.snap_file(f)
     env = {k: np.ma.array(v.data.copy(), mask=None if v.mask is None
                           else v.mask.copy())
